@@ -73,7 +73,7 @@ func (m v2M) coq() string {
 	case 1:
 		return fmt.Sprintf("A %d %d %s %s", m.k, m.c, v2VerdictName[m.y], v2VerdictName[m.n])
 	default:
-		return "N " + v2SetsCoq(m.sets)
+		return "Nt " + v2SetsCoq(m.sets)
 	}
 }
 
@@ -489,11 +489,11 @@ func (r *v2Runner) coqTrace() string {
 		case "clr":
 			ss = append(ss, "EClear")
 		case "run":
-			ss = append(ss, fmt.Sprintf("eRun %d %d %d", e.depth, e.idx, e.avail))
+			ss = append(ss, fmt.Sprintf("eRun %d %d %s", e.depth, e.idx, cHex(e.data)))
 		case "rd":
 			ss = append(ss, fmt.Sprintf("eRead %d %d %s", e.depth, e.idx, cHex(e.data)))
 		case "fb":
-			ss = append(ss, fmt.Sprintf("eFb %d %d", e.depth, e.avail))
+			ss = append(ss, fmt.Sprintf("eFb %d %s", e.depth, cHex(e.data)))
 		case "drop":
 			ss = append(ss, fmt.Sprintf("eDrop %d %s", e.depth, e.why))
 		case "herr":
